@@ -20,9 +20,9 @@ use iceoryx2::port::{BackpressureAction, LoanError, SendError};
 use iceoryx2::prelude::*;
 use iceoryx2::sample::Sample;
 use iceoryx2::sample_mut::SampleMut;
-use iceoryx2::service::builder::{CustomHeaderMarker, CustomPayloadMarker};
+use iceoryx2::service::marker::{CustomHeaderMarker, CustomPayloadMarker};
 use iceoryx2::service::port_factory::publish_subscribe::PortFactory as PsFactory;
-use iceoryx2::service::static_config::message_type_details::{TypeDetail, TypeNameString, TypeVariant};
+use iceoryx2::service::static_config::message_type_details::{TypeDetail, TypeName, TypeVariant};
 use iceoryx2_ffi_c::*;
 use vlib::trace::TraceWriter;
 use vlib::{Value, json};
@@ -104,7 +104,7 @@ pub trait SampleObj {
 
 pub fn type_detail(variant: TypeVariant, name: &str, size: usize, align: usize) -> TypeDetail {
     let mut td = TypeDetail::new::<()>(variant);
-    iceoryx2::testing::type_detail_set_name(&mut td, TypeNameString::try_from(name).expect("type name"));
+    iceoryx2::testing::type_detail_set_name(&mut td, TypeName::try_from(name).expect("type name"));
     iceoryx2::testing::type_detail_set_size(&mut td, size);
     iceoryx2::testing::type_detail_set_alignment(&mut td, align);
     td
@@ -119,6 +119,7 @@ pub trait RKind: 'static {
     fn send_copy<S: Service>(p: &Publisher<S, Self::T, Self::H>, bytes: &[u8], nelem: usize) -> Result<usize, SendError>;
     fn loan_view<S: Service>(l: &SampleMut<S, Self::T, Self::H>) -> (usize, Vec<u8>);
     fn sample_view<S: Service>(s: &Sample<S, Self::T, Self::H>) -> Vec<u8>;
+    fn recv<S: Service>(s: &Subscriber<S, Self::T, Self::H>) -> Result<Option<Sample<S, Self::T, Self::H>>, iceoryx2::port::ReceiveError>;
 }
 
 macro_rules! qos_builder {
@@ -185,6 +186,9 @@ impl RKind for KU64 {
     fn sample_view<S: Service>(s: &Sample<S, u64, ()>) -> Vec<u8> {
         s.payload().to_le_bytes().to_vec()
     }
+    fn recv<S: Service>(s: &Subscriber<S, Self::T, Self::H>) -> Result<Option<Sample<S, Self::T, Self::H>>, iceoryx2::port::ReceiveError> {
+        s.receive()
+    }
 }
 
 pub struct KSlice;
@@ -201,13 +205,18 @@ impl RKind for KSlice {
         Ok(p.loan_slice_uninit(n)?.write_from_slice(bytes))
     }
     fn send_copy<S: Service>(p: &Publisher<S, [u8], ()>, bytes: &[u8], _n: usize) -> Result<usize, SendError> {
-        p.send_slice_copy(bytes)
+        // the Rust API has no copy-send for slices: loan + copy + send
+        let l = p.loan_slice_uninit(bytes.len())?.write_from_slice(bytes);
+        l.send()
     }
     fn loan_view<S: Service>(l: &SampleMut<S, [u8], ()>) -> (usize, Vec<u8>) {
         (l.payload().as_ptr() as usize, l.payload().to_vec())
     }
     fn sample_view<S: Service>(s: &Sample<S, [u8], ()>) -> Vec<u8> {
         s.payload().to_vec()
+    }
+    fn recv<S: Service>(s: &Subscriber<S, Self::T, Self::H>) -> Result<Option<Sample<S, Self::T, Self::H>>, iceoryx2::port::ReceiveError> {
+        s.receive()
     }
 }
 
@@ -259,6 +268,9 @@ impl RKind for KCustom {
         let p = s.payload();
         unsafe { core::slice::from_raw_parts(p.as_ptr() as *const u8, p.len()) }.to_vec()
     }
+    fn recv<S: Service>(s: &Subscriber<S, Self::T, Self::H>) -> Result<Option<Sample<S, Self::T, Self::H>>, iceoryx2::port::ReceiveError> {
+        s.receive()
+    }
 }
 
 struct RFac<S: Service, K: RKind> {
@@ -281,7 +293,7 @@ struct RSample<S: Service, K: RKind> {
     s: Sample<S, K::T, K::H>,
 }
 
-impl<S: Service, K: RKind> Factory for RFac<S, K> {
+impl<S: Service + 'static, K: RKind> Factory for RFac<S, K> {
     fn create_pub(&self, q: &Qos, calls: Calls) -> Result<Box<dyn PubPort>, Er> {
         match K::publisher(&self.f, q, calls) {
             Ok(p) => Ok(Box::new(RPub::<S, K> { p, t: self.t.clone() })),
@@ -295,7 +307,7 @@ impl<S: Service, K: RKind> Factory for RFac<S, K> {
         }
     }
 }
-impl<S: Service, K: RKind> PubPort for RPub<S, K> {
+impl<S: Service + 'static, K: RKind> PubPort for RPub<S, K> {
     fn id(&self) -> u128 {
         self.p.id().value()
     }
@@ -312,7 +324,7 @@ impl<S: Service, K: RKind> PubPort for RPub<S, K> {
         self.p.update_connections().map_err(|e| Er::R(self.t.rust("ConnectionFailure", e)))
     }
 }
-impl<S: Service, K: RKind> LoanObj for RLoan<S, K> {
+impl<S: Service + 'static, K: RKind> LoanObj for RLoan<S, K> {
     fn addr(&self) -> usize {
         K::loan_view(&self.l).0
     }
@@ -330,9 +342,9 @@ impl<S: Service, K: RKind> LoanObj for RLoan<S, K> {
         self.l.send().map_err(|e| Er::R(t.rust("SendError", e)))
     }
 }
-impl<S: Service, K: RKind> SubPort for RSub<S, K> {
+impl<S: Service + 'static, K: RKind> SubPort for RSub<S, K> {
     fn recv(&self) -> Result<Option<Box<dyn SampleObj>>, Er> {
-        match self.s.receive() {
+        match K::recv(&self.s) {
             Ok(Some(s)) => Ok(Some(Box::new(RSample::<S, K> { s }))),
             Ok(None) => Ok(None),
             Err(e) => Err(Er::R(self.t.rust("ReceiveError", e))),
@@ -342,7 +354,7 @@ impl<S: Service, K: RKind> SubPort for RSub<S, K> {
         self.s.has_samples().map_err(|e| Er::R(self.t.rust("ConnectionFailure", e)))
     }
 }
-impl<S: Service, K: RKind> SampleObj for RSample<S, K> {
+impl<S: Service + 'static, K: RKind> SampleObj for RSample<S, K> {
     fn bytes(&self) -> Vec<u8> {
         K::sample_view(&self.s)
     }
@@ -354,7 +366,7 @@ impl<S: Service, K: RKind> SampleObj for RSample<S, K> {
     }
 }
 
-fn rust_factory<S: Service>(node: &Node<S>, name: &ServiceName, q: &Qos, open: bool, t: &Arc<Table>) -> Result<Box<dyn Factory>, Er> {
+fn rust_factory<S: Service + 'static>(node: &Node<S>, name: &ServiceName, q: &Qos, open: bool, t: &Arc<Table>) -> Result<Box<dyn Factory>, Er> {
     Ok(match q.spec.kind.as_str() {
         "u64" => Box::new(RFac::<S, KU64> { f: KU64::service(node, name, q, open, t)?, t: t.clone() }),
         "slice" => Box::new(RFac::<S, KSlice> { f: KSlice::service(node, name, q, open, t)?, t: t.clone() }),
@@ -641,7 +653,7 @@ struct SubEnt {
 
 type Observer<S> = PsFactory<S, [CustomPayloadMarker], CustomHeaderMarker>;
 
-pub struct World<S: Service> {
+pub struct World<S: Service + 'static> {
     q: Qos,
     t: Arc<Table>,
     // participants' service handles (creator first)
@@ -677,7 +689,7 @@ fn chunk_index(addrs: &mut Vec<usize>, addr: usize) -> usize {
     }
 }
 
-impl<S: Service> World<S> {
+impl<S: Service + 'static> World<S> {
     fn u(v: &Value, k: &str) -> u64 {
         v[k].as_u64().unwrap_or(0)
     }
@@ -871,9 +883,13 @@ impl<S: Service> World<S> {
                 let mut blocked = self.calls.lock().unwrap().clone();
                 blocked.sort();
                 blocked.dedup();
+                let cr = match &res {
+                    Ok(_) => "ok".to_string(),
+                    Err(e) => t.label(e),
+                };
                 let loan_ok = |id: u64| {
                     ev("loan", api, json!({"p": p, "r": "ok", "id": id, "c": -1, "dg": digest(&bytes), "len": bytes.len(), "ne": nelem,
-                                           "hp": p, "al": 1, "via": "send_copy"}))
+                                           "hp": p, "al": 1, "via": "send_copy", "cr": cr}))
                 };
                 match res {
                     Ok(n) => {
@@ -886,7 +902,7 @@ impl<S: Service> World<S> {
                         if let Some(inner) = label.strip_prefix("LoanError(").and_then(|x| x.strip_suffix(')')) {
                             // the loan half failed: no sample id is consumed
                             out.push(ev("loan", api, json!({"p": p, "r": inner, "id": 0, "c": 0, "dg": 0, "len": 0, "ne": 0, "hp": 0,
-                                                             "al": 1, "via": "send_copy"})));
+                                                             "al": 1, "via": "send_copy", "cr": label})));
                         } else {
                             self.next_id += 1;
                             out.push(loan_ok(id));
@@ -999,7 +1015,7 @@ impl<S: Service> World<S> {
             w.rnode = None;
             w.cnode = None;
         };
-        let mut after_ports = (0, 0);
+        let after_ports;
         match order {
             1 => {
                 drop_nodes(self);
@@ -1034,7 +1050,7 @@ fn rust_node<S: Service>(dom: &Domain) -> Node<S> {
     NodeBuilder::new().config(&config).create::<S>().expect("rust node")
 }
 
-pub fn run_job<S: Service>(dom: &Domain, name: &str, job: &Value, table: &Arc<Table>, tw: &mut TraceWriter, summary: &mut Summary) {
+pub fn run_job<S: Service + 'static>(dom: &Domain, name: &str, job: &Value, table: &Arc<Table>, tw: &mut TraceWriter, summary: &mut Summary) {
     let q = Qos::from_json(&job["cfg"]);
     let creator = job["creator"].as_str().unwrap_or("rust").to_string();
     let order = job["order"].as_u64().unwrap_or(0);
@@ -1100,6 +1116,7 @@ pub fn run_job<S: Service>(dom: &Domain, name: &str, job: &Value, table: &Arc<Ta
                 summary.count(&e);
                 tw.emit(&e);
             }
+            tw.flush();
         }
     }));
     match result {
